@@ -59,6 +59,21 @@ Theorem C07_used_destination_as_fresh : forall tight st fs k d e,
 Proof. intros; split; reflexivity. Qed.
 Print Assumptions C07_used_destination_as_fresh.
 
+(* CopyTo of the BUILT-IN inspectors (StringAnyMapInspector on nested map[string]any with
+   string / *string / []byte / *[]byte values on every level, StringsInspector on []string /
+   [][]byte) is, value by value, "the source stays where it is, outside the buffer; one
+   Bufferize / BufferizeString hands out the copy" - whatever the nesting, and for EVERY order
+   in which the map is walked (each order is a token list).  So the theorems above cover
+   every source text and every copy of such a CopyTo, on all levels, together with everything
+   else handed out by the same buffer. *)
+Theorem C07_builtin_copy_is_bufferize_sequence : forall tight st,
+  (forall reuse ts e, step tight st (OCopyMap reuse ts e)
+                      = fold_left (step tight) (expand_items (items_of_toks ts) e) st) /\
+  (forall reuse ss ds l e, step tight st (OCopyStrings reuse ss ds l e)
+                      = fold_left (step tight) (expand_items (items_of_strings ss ds l) e) st).
+Proof. exact builtin_copy_is_bufferize_sequence. Qed.
+Print Assumptions C07_builtin_copy_is_bufferize_sequence.
+
 (* Non-vacuity: a concrete history with growth, client appends and overwrites. *)
 Local Open Scope char_scope.
 Definition demo_ops : list op :=
@@ -83,6 +98,22 @@ Example C07_demo_reuse :
    any_overlap (live (st_log (run true 2 reuse_ops))))
   = ([(["e"], ["e"]); (["7"], ["7"]); (["h"], ["h"]); (["!"], ["!"]); (["j"], ["j"]);
       (["k"; "l"; "m"], ["k"; "l"; "m"]); (["4"; "2"], ["4"; "2"])], false).
+Proof. vm_compute. reflexivity. Qed.
+
+(* Non-vacuity with a nested map: text on the outer level and in a nested *map, a []string
+   copied to [][]byte, a watched source; the client then overwrites a source and a copy - the
+   other one of each pair keeps its content, nothing overlaps. *)
+Definition builtin_ops : list op :=
+  [OBufferizeString ["c"; "d"] 0;
+   OCopyMap false [TText false false ["p"]; TOpen 1; TText true true ["q"; "r"]; TOther; TClose] 1;
+   OCopyStrings false true false [["g"; "h"]; []] 0;
+   CWrite 1 0 "!"; CWrite 2 0 "?"; OSource false ["u"]; OBufferizeFrom 9 0; CSetUnbuf 9 ["7"; "8"] 0].
+Example C07_demo_builtin :
+  (map (fun x => (hd_want x, read (st_heap (run true 4 builtin_ops)) (hd_sl x))) (st_log (run true 4 builtin_ops)),
+   any_overlap (live (st_log (run true 4 builtin_ops))))
+  = ([(["c"; "d"], ["c"; "d"]); (["!"], ["!"]); (["?"], ["?"]); (["q"; "r"], ["q"; "r"]); (["q"; "r"], ["q"; "r"]);
+      (["g"; "h"], ["g"; "h"]); (["g"; "h"], ["g"; "h"]); ([], []); ([], []); (["7"; "8"], ["7"; "8"]); (["u"], ["u"])],
+     false).
 Proof. vm_compute. reflexivity. Qed.
 
 (* The pinned commit (buf[off:], capacity to the end of the buffer) violates
